@@ -208,17 +208,19 @@ theorem C07_static_fail_skips_rest (b : Beh) (n : SNode) (rest : List SNode) (do
     (hf : n.fallible = true)
     (hfail : isErr ((callStatic b n (n.ins.map down.rd) st).1.getD n.errIdx (zeroV 0)) = true) :
     specStatic b (n :: rest) down st =
-      (((down.set n.outs (callStatic b n (n.ins.map down.rd) st).1).zero (laterOuts rest)),
+      (((down.zero (laterOuts rest)).set n.outs (callStatic b n (n.ins.map down.rd) st).1),
        (callStatic b n (n.ins.map down.rd) st).2) := by
   simp only [specStatic, hf, Bool.true_and]
   rw [if_pos hfail]
 
-/-- … and its error stays visible downstream (as the value of the retyped `error` output), unless a
-    later static injector would have produced `error` too -/
-theorem C07_static_error_visible (down : Env) (outs : List Ty) (vals : List Val) (later : List Ty)
-    (errTy : Ty) (h : errTy ∉ later) :
-    ((down.set outs vals).zero later).rd errTy = (down.set outs vals).rd errTy := by
-  rw [zero_rd]; simp [h]
+/-- … and what it returned (its error, retyped to `error`) stays visible downstream, whatever the
+    skipped injectors would have provided -/
+theorem C07_static_error_visible (down : Env) (outs : List Ty) (vals : List Val) (later : List Ty) (t : Ty) :
+    ((down.zero later).set outs vals).rd t =
+      match (outs.zip vals).reverse.lookup t with
+      | some x => x
+      | none => (down.zero later).rd t :=
+  C01_nearest_write (down.zero later) outs vals t
 
 /-- init returns, per result type, the static values — including that error -/
 theorem C07_init_returns_static_values (c : Compiled) (b : Beh) (s : SBound) (args : List Val)
